@@ -90,3 +90,10 @@ proof fn lemma_prepend_done(a: Seq<char>)
 {
     assert(a + Seq::<char>::empty() =~= a);
 }
+
+spec fn str_loc(e: Expression) -> Range<Position> {
+    match e {
+        Expression::LitStr { location, .. } => location,
+        _ => arbitrary(),
+    }
+}
